@@ -525,6 +525,13 @@ func (ex *Exec) VerifyFunction(fn *ssa.Function, key string, ct *Contract) (res 
 				}
 			}
 		}
+		if p, ok := v.(*VPtr); ok && p.Obj != nil && capturesReceiver(fn, i) {
+			// the captured variable is the receiver of the enclosing method, never assigned there: a method is
+			// called on a non-nil receiver (the assumption of the sweep; enclosing methods under contract require it)
+			if rp, ok := st.mem[p.Obj].(*VPtr); ok {
+				rp.Nil = False
+			}
+		}
 		fr.regs[fv] = v
 		st.paramVals[fv.Name()] = v
 		if p, ok := v.(*VPtr); ok && p.Obj != nil {
@@ -999,4 +1006,72 @@ func (ex *Exec) nameResultRows(st *State, v Value) {
 			}
 		}
 	}
+}
+
+// capturesReceiver: free variable i of the closure fn is the cell of the receiver of the (outermost) enclosing
+// method, and that cell is stored to exactly once - with the receiver parameter itself.
+func capturesReceiver(fn *ssa.Function, i int) bool {
+	for depth := 0; depth < 8; depth++ {
+		parent := fn.Parent()
+		if parent == nil {
+			return false
+		}
+		var binding ssa.Value
+		for _, b := range parent.Blocks {
+			for _, ins := range b.Instrs {
+				if mc, ok := ins.(*ssa.MakeClosure); ok && mc.Fn == fn && i < len(mc.Bindings) {
+					binding = mc.Bindings[i]
+				}
+			}
+		}
+		switch b := binding.(type) {
+		case *ssa.Alloc:
+			if parent.Signature.Recv() == nil || len(parent.Params) == 0 || b.Referrers() == nil {
+				return false
+			}
+			stores := 0
+			for _, r := range *b.Referrers() {
+				if st, ok := r.(*ssa.Store); ok && st.Addr == b {
+					if st.Val != parent.Params[0] {
+						return false
+					}
+					stores++
+				}
+			}
+			return stores == 1 && !storesToFreeVar(parent, parent.Params[0].Name())
+		case *ssa.FreeVar:
+			idx := -1
+			for k, fv := range parent.FreeVars {
+				if fv == b {
+					idx = k
+				}
+			}
+			if idx < 0 {
+				return false
+			}
+			fn, i = parent, idx
+		default:
+			return false
+		}
+	}
+	return false
+}
+
+// storesToFreeVar: some function nested in fn assigns a captured variable of that name (conservative, by name)
+func storesToFreeVar(fn *ssa.Function, name string) bool {
+	for _, an := range fn.AnonFuncs {
+		for _, b := range an.Blocks {
+			for _, ins := range b.Instrs {
+				if st, ok := ins.(*ssa.Store); ok {
+					if fv, ok := st.Addr.(*ssa.FreeVar); ok && fv.Name() == name {
+						return true
+					}
+				}
+			}
+		}
+		if storesToFreeVar(an, name) {
+			return true
+		}
+	}
+	return false
 }
